@@ -888,7 +888,9 @@ struct StreamSys {
             ma.clear();
         } else if (n == "A.GetStringView") {
             StringView<C> v = a.GetStringView();
-            if (MS(v.First(), v.Length()) != ma || v.First()[v.Length()] != C(0)) {
+            if (v.First() == nullptr) {
+                err = "GetStringView returned a view without storage";
+            } else if (MS(v.First(), v.Length()) != ma || v.First()[v.Length()] != C(0)) {
                 err = "GetStringView differs from the content or is not terminated";
             }
         } else if (n == "A.InsertNull") {
